@@ -351,6 +351,16 @@ def run_wire(name, ops):
                     return [("cmd:%s:wire:refusal-missing" % kind, "%s: WriteProperty with priority %r answered %r" % (name, op[1], r))]
                 if direct_snapshot(obj, dt) != before:
                     return [("cmd:%s:wire:refused-command-changed-state" % kind, "%s history %r" % (name, ops[:i + 1]))]
+            elif op[0] == "badval":
+                # a command whose value the datatype cannot hold (an enumeration number outside the enumeration): whatever the answer,
+                # a refusal leaves the priority array as it was - checked right below by reading everything back
+                if not issubclass(dt, L.P.Enumerated) or max(dt.enumerations.values()) > 200:
+                    continue
+                req = A.WritePropertyRequest(objectIdentifier=oid, propertyIdentifier="presentValue", priority=op[1])
+                req.propertyValue = LL.Any(L.P.Enumerated(max(dt.enumerations.values()) + 1 + op[2]))
+                r = call(req)
+                if isinstance(r, A.SimpleAckPDU):
+                    return [("cmd:%s:wire:out-of-range-value-accepted" % kind, "%s history %r: enumeration number %d acknowledged" % (name, ops[:i + 1], max(dt.enumerations.values()) + 1 + op[2]))]
             elif op[0] == "slot0":
                 continue
         except Exception as err:
@@ -458,7 +468,7 @@ def ops_nontrivial(ops):
             if op[1] in occ:
                 nt = True
             occ.discard(op[1])
-        elif op[0] in ("bad", "slot0", "rd"):
+        elif op[0] in ("bad", "slot0", "rd", "badval"):
             nt = True
     return nt
 
@@ -540,6 +550,9 @@ def run(spec, ctx):
             ctx.check(dict(k="wire", cls=name, ops=[alpha[i] for i in seq]))
         for b in bad[:3]:
             ctx.check(dict(k="wire", cls=name, ops=[alpha[1], b, alpha[7]]))
+        for p_ in PRIOS:
+            for a_ in ([], [alpha[1]], [alpha[5]]):
+                ctx.check(dict(k="wire", cls=name, ops=a_ + [["badval", p_, 0], ["w", 16, 1], ["badval", p_, 1], ["r", 16]]))
         ctx.mark_exhaustive("all command sequences up to length %d on %s (direct), length 2 over the wire" % (spec["maxlen"], name))
     elif kind in ("random", "wire"):
         from hypothesis import strategies as st
@@ -550,6 +563,8 @@ def run(spec, ctx):
                        st.tuples(st.just("slot0"), st.integers(0, 2)).map(list))
         if kind == "random":
             op = st.one_of(op, op, op, op, st.tuples(st.just("rd"), st.integers(0, 2)).map(list))
+        else:
+            op = st.one_of(op, op, op, op, op, st.tuples(st.just("badval"), st.integers(1, 16), st.integers(0, 2)).map(list))
         for name in spec["classes"]:
             if values_for(name) is None:
                 continue
